@@ -63,14 +63,13 @@ def main(argv=None) -> int:
     for k, n in sorted(res.known.items()):
         print(f"KNOWN-FINDING: property={pid} {k} (cases={n})")
     if res.violations:
-        seen = set()
+        seen, printed = {}, 0
         for v in res.violations:
-            key = v.get("kind", "") + "|" + common.short(v.get("text", v.get("case", "")), 80)
-            if key in seen and len(seen) >= 5:
+            key = str(v.get("kind", "")).split(":")[0] + "|" + str(v.get("sub", ""))
+            seen[key] = seen.get(key, 0) + 1
+            if seen[key] > 4 or printed >= 25:
                 continue
-            seen.add(key)
-            if len(seen) > 25:
-                break
+            printed += 1
             path = common.write_replay(pid, v)
             print(f"VIOLATION property={pid} replay={path}")
             print(f"  {common.short(json.dumps(v, ensure_ascii=True), 600)}")
